@@ -493,3 +493,18 @@ func shareWrong(ids []int) []*node {
 func UseNodes(ids []int, e packedEntry) ([]*node, uint8) {
 	return shareWrong(ids), e.Leading() + e.DependsOn() + e.DependedOn() + e.Redundancy()
 }
+
+// O-CAP: the result keeps the capacity of the rest of the buffer.
+type rawReader struct {
+	buf []byte
+	pos int
+}
+
+func (s *rawReader) takeWrong(n int) []byte {
+	res := s.buf[s.pos : s.pos+n]
+	s.pos += n
+	return res
+}
+
+// UseRawReader keeps the method reachable.
+func UseRawReader(s *rawReader) []byte { return s.takeWrong(2) }
